@@ -1122,20 +1122,24 @@ class Server:
         return matching_services
 
     def on_connection(self, channel):
-        self.channel = channel
+        self.select_client(channel)
         channel.sink = lambda pdu: self.on_channel_pdu(channel, pdu)
         channel.once(
             channel.EVENT_CLOSE, lambda: self.pending_responses.pop(channel, None)
         )
 
-    def on_channel_pdu(self, channel, pdu):
-        # Requests are handled one at a time: serve this client on its own channel,
-        # with its own continuation state
+    def select_client(self, channel):
+        # Serve this client on its own channel, with its own continuation state (the
+        # state of the client served so far is kept for its next request)
         if self.channel is not channel:
             if self.channel is not None and self.current_response is not None:
                 self.pending_responses[self.channel] = self.current_response
             self.channel = channel
             self.current_response = self.pending_responses.pop(channel, None)
+
+    def on_channel_pdu(self, channel, pdu):
+        # Requests are handled one at a time
+        self.select_client(channel)
         self.on_pdu(pdu)
 
     def on_pdu(self, pdu):
